@@ -45,7 +45,7 @@ SEARCH_S = {"quick": 40, "thorough": 200}
 
 
 def cases(rng, tier):
-    n = 260 if tier == "quick" else 6000
+    n = 450 if tier == "quick" else 6000
     for _ in range(n):
         yield ttlib.make_case_c04(rng, tier)
 
